@@ -253,12 +253,13 @@ class J1939_21:
                             # recalc next wakeup
                             if next_wakeup > buf['deadline']:
                                 next_wakeup = buf['deadline']
-                        else:
-                            # done
-                            del self._snd_buffer[bufid]
-
                         # state is updated and ready for recv - now send data
                         self.__send_tp_dt(buf['src_address'], buf['dest_address'], data)
+
+                        if buf['next_packet_to_send'] >= buf['num_packages']:
+                            # done (the session is released only after its last packet is on the bus: released
+                            # earlier, the announcement of the next broadcast could overtake that packet)
+                            self._snd_buffer.pop(bufid, None)
                     elif buf['state'] == self.SendBufferState.TRANSMISSION_FINISHED:
                         del self._snd_buffer[bufid]
                     else:
